@@ -2,14 +2,20 @@ import Proofs.C07.Laws
 import Proofs.C07.Versions
 import Proofs.C07.DerPath
 import Proofs.E2E.C07
+import Proofs.E2E.C07Raw
 /-!
 # C07 — BIP32 derivation obeys the BIP's equations and its algebraic laws
 
 Property theorems only.  `E : Env α` bundles the group operations (`Btc.GroupOps α`), the MAC, HASH160 and
 the version table; the drivers run the same definitions with `Btc.Bip32.secpEnv` (secp256k1 through the
 shared transcription of btclib's arithmetic, HMAC-SHA512, the tables regenerated from `network.py`).
-Group laws enter only as `L : Btc.Lawful E.o G` (property C01's statement); sizes as `B : Bounds E`
-(`0 < n ≤ 2^256`, `p ≤ 2^256`), which `secp_bounds` discharges for the executable instance.
+Group laws enter only as `L : Btc.Lawful E.o G`; sizes as `B : Bounds E` (`0 < n ≤ 2^256`, `p ≤ 2^256`), which
+`secp_bounds` discharges for the executable instance.  NOTE: `Lawful (Btc.EC.ops C)` is uninhabited (off-curve pairs
+have no x in range); what C01 proves is `Lawful (opsSub K)` (the same operations on reduced valid pairs of the
+n-torsion).  So the `L`-theorems below are instantiated at `subEnv K D` in the "End to end" section at the bottom,
+and carried to the EXECUTED `ecEnv C D` / `secpEnv mac` there (`…_raw`: under the named cofactor-one hypothesis;
+`deriveB_sub_ok`, `deriveFold_sub_ec`: without it, answers only).  Theorems without `L` (T1/T2 for private keys,
+T2 for the fold, T4, T5, T6, T7) apply to `secpEnv` as they stand.
 
 * `deriveFold` is the BIP's definition: the plain fold of single child derivations, every step setting all
   six fields.  `deriveB` is btclib's `_derive`: depth set up front, `indexes[:-1]` walked on a mutable
@@ -62,6 +68,13 @@ theorem deriveB_fields {G : Type} [AddCommGroup G] (L : Lawful E.o G) (B : Bound
   rw [deriveB_eq_fold L B x p hk hd, deriveFold_eq' E x p hd] at h
   exact deriveFold'_fields E x y p h
 
+/-- T1 (fields, private keys): no group law needed — applies to the executed `secpEnv` as it stands. -/
+theorem deriveB_fields_private (B : Bounds E) (x y : XKey) (p : List Nat) (hprv : x.isPrivate = true)
+    (h : deriveB E x p none = .ok y) :
+    y.depth = x.depth + p.length ∧ y.version = x.version ∧ y.isPrivate = x.isPrivate ∧
+    ∀ i, p.getLast? = some i → y.index = i :=
+  Btc.Bip32.deriveB_fields_private B x y p hprv h
+
 /-- T1 (forced version): forcing a version is re-labelling the key first; the derivation never reads it. -/
 theorem deriveB_forced_version (x : XKey) (p : List Nat) (f : Bytes) (hf : f ≠ [])
     (hd : x.depth + p.length ≤ MAX_DEPTH) :
@@ -95,6 +108,12 @@ theorem deriveB_compose {G : Type} [AddCommGroup G] (L : Lawful E.o G) (B : Boun
   rw [deriveB_eq_fold L B x p hkp hdp] at h
   rw [deriveB_eq_fold L B y q hkq hdq, deriveB_eq_fold L B x (p ++ q) hk hd, deriveFold_append, h]
   rfl
+
+/-- T2 (btclib's `_derive`, private keys): no group law needed — applies to the executed `secpEnv` as it stands. -/
+theorem deriveB_compose_private (B : Bounds E) (x y : XKey) (p q : List Nat) (hprv : x.isPrivate = true)
+    (hd : x.depth + (p ++ q).length ≤ MAX_DEPTH) (h : deriveB E x p none = .ok y) :
+    deriveB E y q none = deriveB E x (p ++ q) none :=
+  Btc.Bip32.deriveB_compose_private B x y p q hprv hd h
 
 /-! ## T3 — neutering commutes with unhardened derivation, definedness included -/
 
@@ -133,6 +152,18 @@ theorem hardened_path_from_public_refused (x : XKey) (p : List Nat) (hpub : x.is
   refine ⟨deriveB_public_hardened x p hpub hd hh, ?_⟩
   rw [deriveFold_eq' E x p hd]
   exact deriveFold'_public_hardened p x hpub hh
+
+/-- T4: `pub_key_derivation_tweaks` (the index-taking entry that does not go through `derive`) refuses a path
+    holding any index at or above 2^31 — 2^31 itself included — before walking a step. -/
+theorem tweaks_hardened_refused (key chain : Bytes) (idx : List Nat) (hk : key.length = 33) (hc : chain.length = 32)
+    (hi : ∀ i ∈ idx, i ≤ Gen.Bip32.PATH_MAX_INDEX) (hh : ∃ i ∈ idx, i ≥ HARDENED) :
+    pubTweaks E key chain idx = .error .hardenedPub := by
+  unfold pubTweaks
+  have h1 : idx.any (· > Gen.Bip32.PATH_MAX_INDEX) = false := by
+    rw [List.any_eq_false]; intro j hj; have := hi j hj; simp; omega
+  have h2 : idx.any (· ≥ HARDENED) = true := by
+    rw [List.any_eq_true]; obtain ⟨j, hj, hjh⟩ := hh; exact ⟨j, hj, by simpa using hjh⟩
+  simp [hk, hc, h1, h2]
 
 /-- T4: a left half that is no scalar, and a zero child, are refused with the index that was asked for. -/
 theorem invalid_private_child_refused (x : XKey) (i : Nat) (pub : Bytes) (h : Bytes × Bytes) :
@@ -265,8 +296,14 @@ operations on the underlying pairs, `lift_x` answering inside the `n`-torsion). 
 `subEnv K D` ARE their runs over `ecEnv C D`; what a public derivation answers over `subEnv K D` it answers over
 `ecEnv C D`.  T3 is given as the full equation over `subEnv K D` and, in its success case, about `Btc.EC.ops C` alone.
 (T2 `deriveFold_compose` and T5 `crack_recovers_parent` never had a `Lawful` hypothesis: they already apply to
-`secpEnv`.)  For secp256k1 nothing is assumed about the curve (primality of `p`, `n`: Pratt certificates,
-`Btc.E2E.secp256k1_p_prime`, `secp256k1_n_prime`). -/
+`secpEnv`; so do the private-key forms `deriveB_private_eq_fold`, `deriveB_fields_private`, `deriveB_compose_private`.)
+`Lawful (EC.ops C)` itself is NOT what C01 proves (it is uninhabited: off-curve pairs); C01 proves
+`Lawful (opsSub K)`.  The theorems named `…_raw` below are about the EXECUTED `ecEnv C D` / `secpEnv mac`, refusals
+included, under the explicit hypothesis that `lift_x` of `opsSub K` and of `Btc.EC.ops C` agree (`LiftAgree K`), which
+follows from cofactor one (`hcof : ∀ g, n • g = 0`) and `Δ ≠ 0` (`liftAgree_of_cofactor_one`).  For secp256k1, `Δ ≠ 0` is
+proved, primality of `p`, `n` is proved (Pratt certificates), and `SecpCofactorOne` is the ONE remaining named
+assumption (no point count in Mathlib).  Without it: `deriveB_sub_ok` (what `_derive` answers over `subEnv` it answers
+over `ecEnv`), `deriveFold_sub_ec`, and the success form of T3. -/
 namespace Props.C07
 open Btc Btc.EC Btc.C01 Btc.E2E Btc.Bip32
 
@@ -334,6 +371,90 @@ theorem deriveB_eq_fold_secp256k1
     (hk : x.isPrivate = true ∨ ∀ i ∈ path, i < HARDENED) (hd : x.depth + path.length ≤ MAX_DEPTH) :
     deriveB (secpSubEnv mac) x path none = deriveFold (secpSubEnv mac) x path :=
   Btc.E2E.deriveB_eq_fold_secp256k1 mac x path hk hd
+
+/-! ### about the executed environment (`Btc.EC.ops C`), refusals included, under cofactor one -/
+
+/-- the missing transfer, no assumption: what `_derive` answers over `subEnv K D` it answers over `ecEnv C D` -/
+theorem deriveB_sub_ok {p : ℕ} [Fact p.Prime] {C : Curve} (K : CurveOk p C) (D : EnvData) {x y : XKey}
+    {path : List ℕ} {f : Option Bytes} (h : deriveB (subEnv K D) x path f = .ok y) :
+    deriveB (ecEnv C D) x path f = .ok y :=
+  Btc.E2E.deriveB_sub_ok K D h
+
+/-- under cofactor one and `Δ ≠ 0`, the BIP fold and `_derive` over `subEnv K D` ARE their runs over `ecEnv C D` -/
+theorem sub_runs_are_ec_runs {p : ℕ} [Fact p.Prime] {C : Curve} (K : CurveOk p C) (D : EnvData) (h34 : p % 4 = 3)
+    (hcof : ∀ g : Pt p C.toCurveGroup, C.n • g = 0)
+    (hΔ : (curveOf p C.toCurveGroup).toAffine.Δ ≠ 0) (x : XKey) (path : List ℕ) (f : Option Bytes) :
+    deriveFold (subEnv K D) x path = deriveFold (ecEnv C D) x path ∧
+    deriveB (subEnv K D) x path f = deriveB (ecEnv C D) x path f :=
+  ⟨deriveFold_sub_eq K D (liftAgree_of_cofactor_one K h34 hcof hΔ) path x,
+   deriveB_sub_eq K D (liftAgree_of_cofactor_one K h34 hcof hΔ) x path f⟩
+
+/-- T1 on `Btc.EC.ops C`, any curve of cofactor one: `_derive` = the BIP fold on every field, refusals included -/
+theorem deriveB_eq_fold_raw_ec {p : ℕ} [Fact p.Prime] {C : Curve} (K : CurveOk p C) (D : EnvData) (h34 : p % 4 = 3)
+    (hcof : ∀ g : Pt p C.toCurveGroup, C.n • g = 0)
+    (hΔ : (curveOf p C.toCurveGroup).toAffine.Δ ≠ 0) (B : Bounds (ecEnv C D)) (x : XKey) (path : List ℕ)
+    (hk : x.isPrivate = true ∨ ∀ i ∈ path, i < HARDENED) (hd : x.depth + path.length ≤ MAX_DEPTH) :
+    deriveB (ecEnv C D) x path none = deriveFold (ecEnv C D) x path :=
+  deriveB_eq_fold_raw K D (liftAgree_of_cofactor_one K h34 hcof hΔ) h34 B x path hk hd
+
+/-- T3 on `Btc.EC.ops C`, any curve of cofactor one: the FULL equation, refusals included (fold and `_derive`) -/
+theorem neuter_derive_raw_full_ec {p : ℕ} [Fact p.Prime] {C : Curve} (K : CurveOk p C) (D : EnvData) (h34 : p % 4 = 3)
+    (hcof : ∀ g : Pt p C.toCurveGroup, C.n • g = 0)
+    (hΔ : (curveOf p C.toCurveGroup).toAffine.Δ ≠ 0) (B : Bounds (ecEnv C D)) (x : XKey) (v : Bytes) (path : List ℕ)
+    (hv : ValidPrv (ecEnv C D) x) (hver : D.pubVersion x.version = some v) (hp : ∀ i ∈ path, i < HARDENED) :
+    (((deriveFold (ecEnv C D) x path).mapError Err.toPub).bind (neuter (ecEnv C D)) =
+      (neuter (ecEnv C D) x).bind fun x' => deriveFold (ecEnv C D) x' path) ∧
+    (x.depth + path.length ≤ MAX_DEPTH →
+      ((deriveB (ecEnv C D) x path none).mapError Err.toPub).bind (neuter (ecEnv C D)) =
+        (neuter (ecEnv C D) x).bind fun x' => deriveB (ecEnv C D) x' path none) :=
+  ⟨neuter_derive_raw_full K D (liftAgree_of_cofactor_one K h34 hcof hΔ) h34 B x v path hv hver hp,
+   neuter_deriveB_raw K D (liftAgree_of_cofactor_one K h34 hcof hΔ) h34 B x v path hv hver hp⟩
+
+/-- T1 on the driver's `secpEnv mac`: the only assumption is cofactor one (`Δ ≠ 0`, primality: proved) -/
+theorem deriveB_eq_fold_secp256k1_raw (hcof : SecpCofactorOne) (mac : Bytes → Bytes → Bytes) (x : XKey) (path : List ℕ)
+    (hk : x.isPrivate = true ∨ ∀ i ∈ path, i < HARDENED) (hd : x.depth + path.length ≤ MAX_DEPTH) :
+    deriveB (secpEnv mac) x path none = deriveFold (secpEnv mac) x path :=
+  Btc.E2E.deriveB_eq_fold_secp256k1_raw hcof mac x path hk hd
+
+/-- T1 (fields) on `secpEnv mac`: never another index than the one asked -/
+theorem deriveB_fields_secp256k1_raw (hcof : SecpCofactorOne) (mac : Bytes → Bytes → Bytes) (x y : XKey) (path : List ℕ)
+    (hk : x.isPrivate = true ∨ ∀ i ∈ path, i < HARDENED) (h : deriveB (secpEnv mac) x path none = .ok y) :
+    y.depth = x.depth + path.length ∧ y.version = x.version ∧ y.isPrivate = x.isPrivate ∧
+    ∀ i, path.getLast? = some i → y.index = i :=
+  Btc.E2E.deriveB_fields_secp256k1_raw hcof mac x y path hk h
+
+/-- T2 on `secpEnv mac` in btclib's shape: every split of a path -/
+theorem deriveB_compose_secp256k1_raw (hcof : SecpCofactorOne) (mac : Bytes → Bytes → Bytes) (x y : XKey)
+    (q r : List ℕ) (hk : x.isPrivate = true ∨ ∀ i ∈ q ++ r, i < HARDENED)
+    (hd : x.depth + (q ++ r).length ≤ MAX_DEPTH) (h : deriveB (secpEnv mac) x q none = .ok y) :
+    deriveB (secpEnv mac) y r none = deriveB (secpEnv mac) x (q ++ r) none :=
+  Btc.E2E.deriveB_compose_secp256k1_raw hcof mac x y q r hk hd h
+
+/-- T3 on `secpEnv mac`, the full equation for the BIP fold: refused at the same index on both sides -/
+theorem neuter_derive_secp256k1_raw (hcof : SecpCofactorOne) (mac : Bytes → Bytes → Bytes) (x : XKey) (v : Bytes)
+    (path : List ℕ) (hv : ValidPrv (secpEnv mac) x) (hver : Gen.Bip32.pubVersion x.version = some v)
+    (hp : ∀ i ∈ path, i < HARDENED) :
+    ((deriveFold (secpEnv mac) x path).mapError Err.toPub).bind (neuter (secpEnv mac)) =
+      (neuter (secpEnv mac) x).bind fun x' => deriveFold (secpEnv mac) x' path :=
+  Btc.E2E.neuter_derive_secp256k1_raw hcof mac x v path hv hver hp
+
+/-- T3 on `secpEnv mac` in btclib's shape (`_derive`, `_xpub_from_xprv`) -/
+theorem neuter_deriveB_secp256k1_raw (hcof : SecpCofactorOne) (mac : Bytes → Bytes → Bytes) (x : XKey) (v : Bytes)
+    (path : List ℕ) (hv : ValidPrv (secpEnv mac) x) (hver : Gen.Bip32.pubVersion x.version = some v)
+    (hp : ∀ i ∈ path, i < HARDENED) (hd : x.depth + path.length ≤ MAX_DEPTH) :
+    ((deriveB (secpEnv mac) x path none).mapError Err.toPub).bind (neuter (secpEnv mac)) =
+      (neuter (secpEnv mac) x).bind fun x' => deriveB (secpEnv mac) x' path none :=
+  Btc.E2E.neuter_deriveB_secp256k1_raw hcof mac x v path hv hver hp hd
+
+/-- no assumption at all, secp256k1: `_derive`'s answers over `secpSubEnv` are its answers on `secpEnv`; with
+    `deriveB_eq_fold_secp256k1` this ties btclib's shape to the fold in the success case -/
+theorem deriveB_sub_ok_secp256k1 (mac : Bytes → Bytes → Bytes) {x y : XKey} {path : List ℕ} {f : Option Bytes}
+    (h : deriveB (secpSubEnv mac) x path f = .ok y) : deriveB (secpEnv mac) x path f = .ok y :=
+  Btc.E2E.deriveB_sub_ok_secp256k1 mac h
+
+/-- the discriminant half of the cofactor-one route is proved for secp256k1 -/
+theorem secp256k1_disc_ne_zero : (curveOf secp256k1_p secp256k1.toCurveGroup).toAffine.Δ ≠ 0 :=
+  Btc.E2E.secp256k1_disc_ne_zero
 
 -- non-vacuity on `y² = x³ + 7` over `F₄₃` (`CurveOk` PROVED, nothing assumed): an actual private derivation along
 -- `0/7` followed by neutering, and what T3 then says of the public derivation of the neutered parent
